@@ -23,6 +23,7 @@ const (
 	bNow       = 'n' // reply at once
 	bErrSplit  = 'E' // reply at once: an rpc-error, chunked (1.1) with a boundary inside its message-id attribute
 	bSubID     = 's' // reply at once, its data contains a subscription-id element (e.g. a <get> of the subscriptions state)
+	bHashLine  = 'h' // reply at once, its data has lines that end in "##" without being the end marker (lines that begin with "##" are C02's open finding (b): a read ending right after such a "##" is taken for the end marker)
 	bWriteFail = 'w' // the write of the return that follows this request fails once: the call errors, the server (1.0) answers anyway
 	bCR        = 'r' // reply at once, its data contains CR LF (the channel strips CR: under 1.1 the reply no longer de-chunks -- C02's open finding -- but it is still this call's reply)
 	bNever     = 'x' // never reply
@@ -101,6 +102,9 @@ func scenario(s scn) sched.Scenario {
 				if i < len(s.hist) && s.hist[i] == bCR {
 					pad += "<t>x\r\ny\r\nz\r\n</t>"
 				}
+				if i < len(s.hist) && s.hist[i] == bHashLine {
+					pad += "<motd>\nauthorized use only ##\nline two ##\nx##\n</motd>"
+				}
 				if i < len(s.hist) && s.hist[i] == bSubID {
 					pad += "<subscriptions><subscription><subscription-id>7</subscription-id></subscription></subscriptions>"
 				}
@@ -112,7 +116,7 @@ func scenario(s scn) sched.Scenario {
 					return reply, dev.ReplyNow
 				}
 				switch s.hist[i] {
-				case bNow, bCR, bSubID, bErrSplit, bWriteFail:
+				case bNow, bCR, bSubID, bHashLine, bErrSplit, bWriteFail:
 					return reply, dev.ReplyNow
 				case bNever:
 					return reply, dev.ReplyNever
@@ -246,14 +250,14 @@ func scenario(s scn) sched.Scenario {
 							e.Violate("c08:reply-returned-twice", "reply %s returned to calls %d and %d", m[1], k, i)
 						}
 						seen[m[1]] = i
-						if beh != bNow && beh != bEdge && beh != bCR && beh != bSubID && beh != bErrSplit && beh != bWriteFail {
+						if beh != bNow && beh != bEdge && beh != bCR && beh != bSubID && beh != bHashLine && beh != bErrSplit && beh != bWriteFail {
 							e.Violate("c08:late-reply-accepted", "call %d (behaviour %c) should have timed out, got %q", i, beh, c.result)
 						}
 					} else {
 						if beh == bWriteFail {
 							continue // the call whose own write failed may report that
 						}
-						if beh == bNow || beh == bCR || beh == bSubID || beh == bErrSplit {
+						if beh == bNow || beh == bCR || beh == bSubID || beh == bHashLine || beh == bErrSplit {
 							prevB := byte('-')
 							if i > 0 && i-1 < len(s.hist) {
 								prevB = s.hist[i-1]
@@ -417,6 +421,14 @@ func scenarios(tier string) []sched.Scenario {
 			}
 		}
 	}
+	// replies whose data has lines ending in "##": every single cut
+	for _, h := range []string{"h", "nh", "hn"} {
+		for _, echo := range []bool{false, true} {
+			for _, v := range []string{"1.0", "1.1"} {
+				out = append(out, scenario(scn{hist: h, echo: echo, version: v, b: sched.Bounds{Env: 1}}))
+			}
+		}
+	}
 	// big replies: every single cut of echo + reply
 	for _, h := range []string{"n", "nn", "an"} {
 		for _, echo := range []bool{false, true} {
@@ -454,7 +466,7 @@ func TestCheck(t *testing.T) {
 	sched.Main(t, sched.Check{
 		ID:    "C08",
 		Level: "model_checking",
-		Rule: "history = one behaviour per request over {reply now, never, late: released after the timed-out call / emitted before the next reply / emitted after the next reply; plus reply variants: rpc-error chunked inside its message-id, data mentioning a subscription-id, data with CR LF; plus a request whose return write fails once}, all histories up to the length bound x {echo on, off} x {1.0, 1.1} x read presets {whole message, 1 byte, 7 bytes} (+ replies of 1.1 kB with every single cut); a read never spans two server messages; " +
+		Rule: "history = one behaviour per request over {reply now, never, late: released after the timed-out call / emitted before the next reply / emitted after the next reply; plus reply variants: rpc-error chunked inside its message-id, data mentioning a subscription-id, data with CR LF, data lines ending in "##" (every single cut); plus a request whose return write fails once}, all histories up to the length bound x {echo on, off} x {1.0, 1.1} x read presets {whole message, 1 byte, 7 bytes} (+ replies of 1.1 kB with every single cut); a read never spans two server messages; " +
 			"per scenario all executions within the deviation bound (extra cuts/holds; thread switches among channel reader, NETCONF reader, RPC poller, caller); oracle = message-id bookkeeping against the server model's request log",
 		Assumptions: []string{"the server model echoes (when echo is on) every byte before answering", "timeouts 6.5x read delay; late replies are released at three phases relative to the next request"},
 		Scenarios:   scenarios,
